@@ -209,6 +209,36 @@ def check_batched_params(ctx: Ctx, group):
             return
 
 
+def check_batched_rates_only(ctx: Ctx, group):
+    """Only the rate parameters carry a leading dimension; the frequencies are one fixed vector (the SYM-like set-up)."""
+    import torch
+    from torchtree.core.utils import process_object
+    c0 = group[0][0]
+    if c0["model"] in ("JC69", "GENJC", "EMPIRICAL") or len(group) < 2:
+        return
+    pi0 = [float(x) for x in group[0][1]]
+    rts = [[float(x) for x in g[2]] for g in group]
+    if not rts[0]:
+        return
+    js = model_json(c0, pi0, rts)
+    try:
+        model = process_object(js, {})
+        bl = torch.tensor([[0.3], [1.1]]).expand(len(group), 2, 1)
+        Pb = model.p_t(bl)
+    except Exception as e:
+        ctx.add("batched_raised")
+        ctx.cov.setdefault("batched_raised_samples", []).append(f"{c0['model']} (rates only): {type(e).__name__}: {str(e)[:80]}")
+        return
+    ctx.add("evaluations")
+    n = c0["n"]
+    for b, (c, pi, rates, key) in enumerate(group):
+        single = build(c0, pi0, [float(x) for x in rates]).p_t(torch.tensor([[0.3], [1.1]]))
+        if Pb.shape[0] != len(group) or (Pb[b].reshape(-1, n, n) - single.reshape(-1, n, n)).abs().max() > 1e-10:
+            ctx.violation(f"C04:{c0['model']}:batched-rates-fixed-frequencies", f"rates batched [B={len(group)}] with one frequency vector: slice {b} of p_t differs from the "
+                          "un-batched model", {"case": key})
+            return
+
+
 def check_history(ctx: Ctx, group):
     """One live model object taken through the group's parameter sets by assignment through the
     public parameter interface; after every update p_t must be exp(Qt) of the *current* Q."""
@@ -367,6 +397,19 @@ def check_codon_and_empirical(ctx: Ctx, tier):
             if (Pt - ref).abs().max() > (1e-9 if Pt.dtype == torch.float64 else 1e-5):
                 ctx.violation(f"C04:{cls.__name__}:p_t", f"{cls.__name__}: p_t({t}) differs from expm(Qt) by {float((Pt - ref).abs().max()):.3g}", {})
                 break
+        # history: the model is moved (cpu(), to(dtype)) and evaluated again - the same normalised generator
+        for move in ("cpu", "to"):
+            try:
+                getattr(m, move)(*(() if move == "cpu" else (torch.float64,)))
+            except Exception:
+                continue
+            Pt = m.p_t(torch.tensor([1.0])).reshape(n, n)
+            ref = torch.tensor(O.expm_np(Qref, 1.0), dtype=Pt.dtype)
+            ctx.add("evaluations")
+            if (Pt - ref).abs().max() > (1e-9 if Pt.dtype == torch.float64 else 1e-5):
+                ctx.violation(f"C04:{cls.__name__}:p_t-after-{move}", f"{cls.__name__}: after {move}() p_t(1) differs from expm(Q) of the normalised generator by "
+                              f"{float((Pt - ref).abs().max()):.3g}", {})
+                break
 
 
 def run(ctx: Ctx):
@@ -402,6 +445,7 @@ def run(ctx: Ctx):
         groups.setdefault((c["model"], c["n"], tuple(c["mapping"])), []).append((c, pi, rates, key))
     for g in groups.values():
         check_batched_params(ctx, g)
+        check_batched_rates_only(ctx, g)
         check_history(ctx, g)
     ctx.sample({"case": emitted[7]["case"], "q": emitted[7]["q"]}, limit=2)
     # random parameters outside the lattice, through the validated transliteration
